@@ -515,3 +515,26 @@ func VerifC10_pickycallback() {
 	vfAssert(out == want, "same-bytes-whatever-created-or-wraps-it")
 	vfObserveStr("out", out)
 }
+
+// VerifC10_twowrappers: two kept wrappers of one format around two different tables, rendered in turn:
+// each shows its own table every time (nothing of a format's wrapper is shared between tables).
+func VerifC10_twowrappers() {
+	format := vfChoice("format", 5)
+	t1 := tabular.New()
+	t1.AddHeaders("k", "v")
+	t1.AddRowItems("one", 1)
+	t2 := tabular.New()
+	t2.AddHeaders("k", "v")
+	t2.AddRowItems("two", 2)
+	t2.AddRowItems("three", 3)
+	want1, e1 := vfRenderAs(t1, format)
+	want2, e2 := vfRenderAs(t2, format)
+	a, b := vfKeep(t1, format), vfKeep(t2, format)
+	o1, e3 := a.Render()
+	o2, e4 := b.Render()
+	o3, e5 := a.Render()
+	o4, e6 := b.Render()
+	vfAssert(vfAnd(vfAnd(e1 == nil, e2 == nil), vfAnd(vfAnd(e3 == nil, e4 == nil), vfAnd(e5 == nil, e6 == nil))), "render-ok")
+	vfAssert(vfAnd(o1 == want1, o3 == want1), "wrapper-method-agrees")
+	vfAssert(vfAnd(o2 == want2, o4 == want2), "wrapper-method-agrees")
+}
